@@ -141,10 +141,12 @@ class C09(PropBase):
                 for j, i in enumerate(sub):
                     f = frames[i]
                     me = int(f[8:22], 16)
-                    fs.append(F.df17(5, addrs[j], me))
+                    # the capability field of the squitter (and of what the aircraft sent before) runs over 0..7: a velocity squitter
+                    # is applied whatever the transponder level
+                    fs.append(F.df17(5 if first == "bds50" else (3 * j + 1) % 8, addrs[j], me))
                 ops = ["reset", gen.cfg_op(use_update=u, relaxed=r), "case 0"]
-                prior = (lambda a: F.df11(5, a, 0)) if not first else \
-                        (lambda a: F.df17(5, a, F.me_velocity(1, 0, 0, 0, 1, 301, 0, 417, 0, 1, 14, 0, 9)))
+                prior = (lambda a: F.df11(a % 8, a, 0)) if not first else \
+                        (lambda a: F.df17((a // 8) % 8, a, F.me_velocity(1, 0, 0, 0, 1, 301, 0, 417, 0, 1, 14, 0, 9)))
                 if first == "bds50":
                     # the row has just taken ground speed and track from a Comm-B BDS 5,0 reply (capability 5, register
                     # advertised by a BDS 1,7 report): the velocity squitter that follows at once still sets its own values
